@@ -195,6 +195,14 @@ def cstep (cw : CWorld) : COp → CWorld × Out
 
 def CWorld.init (pf : Platform) : CWorld := ⟨World.init pf, []⟩
 
+/-- the call of the symbol machine a call stands for -/
+def COp.toOp : COp → Op
+  | .newRemote via c noise => .newRemote via c.m c.sym c.cparams noise
+  | .convert p _ => .convert true p
+  | .add _ c => .addComponent c.sym c.cparams
+  | .setCircuit checked c => .setCircuit checked c.m c.sym c.cparams
+  | .plain op => op
+
 /-- the user-level reading of a call that succeeded -/
 def specAfter (s : Spec) : COp → Spec
   | .newRemote _ c _ => ⟨none, c.leaves⟩
